@@ -789,6 +789,33 @@ def d7(prog, ctx):
         else:
             fill_top = c_hi if fill_top is None else min(fill_top, c_hi)
             ctx.ok("D7", "%s:%d" % (AP, lp.lineno), "fill_index scans bins last+%d .. first, descending" % c_hi)
+    # (ii-b) alignments are stored in START order, so their ends are not monotone: completing the END index has to take the running
+    # minimum - an existing entry that is larger than the value carried down from the right is overwritten too
+    fill_in = prog.func_inlined(AP, "InMemoryAlignmentStorage.fill_index")
+    end_loops = [l for l in walk_no_nested(fill_in) if isinstance(l, ast.For) and any(
+        isinstance(st, ast.Assign) and isinstance(st.targets[0], ast.Subscript) and src(st.targets[0].value).endswith("alignment_end_index")
+        for st in ast.walk(l))]
+    if not end_loops:
+        ctx.undecided("D7", fill, "InMemoryAlignmentStorage.fill_index", "no loop completing alignment_end_index found (helpers expanded)")
+    for lp in end_loops:
+        n += 1
+        stores = [st for st in ast.walk(lp) if isinstance(st, ast.Assign) and isinstance(st.targets[0], ast.Subscript)
+                  and src(st.targets[0].value).endswith("alignment_end_index")]
+        ok_min = False
+        for st in stores:
+            if isinstance(st.value, ast.Call) and call_name(st.value) == "min":
+                ok_min = True
+            for g in flow.guards_of(st, stop=lp):
+                for x in ast.walk(g.test):
+                    if isinstance(x, ast.Compare) and isinstance(x.ops[0], (ast.Gt, ast.GtE, ast.Lt, ast.LtE)) and "alignment_end_index[" in src(x):
+                        ok_min = True
+        if ok_min:
+            ctx.ok("D7", "%s:%d" % (AP, lp.lineno), "the end index is completed as a running minimum")
+        else:
+            ctx.fail("D7", lp, "InMemoryAlignmentStorage.fill_index", "end index without running minimum",
+                     "alignment_end_index is completed like the start index (only missing bins are filled): alignment ends are not sorted, so "
+                     "a bin whose recorded entry points behind a longer, earlier alignment keeps that entry, get_alignments starts its "
+                     "scan too late and a read that still overlaps the sub-region is never fetched")
     # (iii) get_alignments: slice bounds
     region = ga.args.args[1].arg
     loops = [l for l in walk_no_nested(ga) if isinstance(l, ast.For) and isinstance(l.iter, ast.Call) and src(l.iter.func) == "range"
@@ -856,7 +883,7 @@ def d7(prog, ctx):
                  "position of a sub-region are not fetched")
     else:
         ctx.ok("D7", "%s:%d" % (AP, fetch[0].lineno), "BAM storage fetches [region[0], region[1] + 1): the closed region")
-    ctx.floor("D7", "index-table, fill, slice-bound and fetch obligations", n, 7)
+    ctx.floor("D7", "index-table, fill, slice-bound and fetch obligations", n, 6)
 
 
 from ..engine.dataflow import single_def_env as local_env  # noqa: E402
